@@ -505,5 +505,7 @@ func main() {
 		gen(seed, tier)
 	case "impl":
 		impl()
+	case "skel":
+		skelMain(os.Args[2:])
 	}
 }
